@@ -28,131 +28,7 @@ sys.path.insert(0, os.path.dirname(os.path.dirname(os.path.abspath(__file__))))
 from srcheck import props  # noqa: E402
 from srcheck.core import AnalysisError, Program  # noqa: E402
 
-CMP_FLIP = {
-    ast.Lt: ast.LtE, ast.LtE: ast.Lt, ast.Gt: ast.GtE, ast.GtE: ast.Gt, ast.Eq: ast.NotEq, ast.NotEq: ast.Eq,
-    ast.Is: ast.IsNot, ast.IsNot: ast.Is, ast.In: ast.NotIn, ast.NotIn: ast.In,
-}
-SKIP_FILES = ("__init__.py", "cli/util.py", "cli/__main__.py")
-
-
-def enumerate_mutants(src: str) -> List[Tuple[str, int, str]]:
-    """[(operator description, line, mutated source)]"""
-    tree = ast.parse(src)
-    nodes = list(ast.walk(tree))
-    out: List[Tuple[str, int, str]] = []
-    base = ast.unparse(tree)
-
-    def emit(desc: str, node: ast.AST, apply) -> None:
-        t2 = copy.deepcopy(tree)
-        # locate the same node by position in walk order
-        idx = nodes.index(node)
-        target = list(ast.walk(t2))[idx]
-        if apply(target) is False:
-            return
-        try:
-            ast.fix_missing_locations(t2)
-            new = ast.unparse(t2)
-            compile(new, "<mutant>", "exec")
-        except Exception:  # noqa: BLE001
-            return
-        if new != base:
-            out.append((desc, getattr(node, "lineno", 0), new))
-
-    in_doc = set()
-    for node in nodes:
-        if isinstance(node, (ast.FunctionDef, ast.ClassDef, ast.Module, ast.AsyncFunctionDef)) and node.body:
-            first = node.body[0]
-            if isinstance(first, ast.Expr) and isinstance(first.value, ast.Constant) and isinstance(first.value.value, str):
-                in_doc.add(id(first.value))
-    # annotations are not code
-    ann = set()
-    for node in nodes:
-        for field in ("annotation", "returns"):
-            a = getattr(node, field, None)
-            if a is not None:
-                ann |= {id(x) for x in ast.walk(a)}
-    for node in nodes:
-        if id(node) in ann or id(node) in in_doc:
-            continue
-        if isinstance(node, ast.Compare) and len(node.ops) == 1 and type(node.ops[0]) in CMP_FLIP:
-            def f(t, _n=node):
-                t.ops = [CMP_FLIP[type(t.ops[0])]()]
-            emit(f"compare {type(node.ops[0]).__name__}->{CMP_FLIP[type(node.ops[0])].__name__}", node, f)
-        if isinstance(node, ast.BoolOp):
-            def f(t):
-                t.op = ast.Or() if isinstance(t.op, ast.And) else ast.And()
-            emit("and<->or", node, f)
-        if isinstance(node, ast.UnaryOp) and isinstance(node.op, ast.Not):
-            parent_is_stmt = False
-            def f(t):
-                t.op = ast.UAdd()  # placeholder, replaced below
-                return False
-            # replace `not x` by `x`: done through the parent
-        if isinstance(node, ast.Constant) and isinstance(node.value, bool):
-            def f(t):
-                t.value = not t.value
-            emit(f"{node.value}->{not node.value}", node, f)
-        elif isinstance(node, ast.Constant) and isinstance(node.value, int) and -3 <= node.value <= 8:
-            for delta in (1, -1):
-                def f(t, d=delta):
-                    t.value = t.value + d
-                emit(f"const {node.value}->{node.value + delta}", node, f)
-        if isinstance(node, ast.BinOp) and isinstance(node.op, (ast.Add, ast.Sub)):
-            def f(t):
-                t.op = ast.Sub() if isinstance(t.op, ast.Add) else ast.Add()
-            emit("+<->-", node, f)
-        if isinstance(node, ast.BinOp) and isinstance(node.op, (ast.Add, ast.Sub, ast.Mult)):
-            def f(t):
-                t.op = ast.Add()
-                t.right = ast.Constant(value=0)
-            emit("drop right operand", node, f)
-        if isinstance(node, ast.Call) and len(node.args) == 2 and not node.keywords and not any(isinstance(a, ast.Starred) for a in node.args):
-            if ast.dump(node.args[0]) != ast.dump(node.args[1]):
-                def f(t):
-                    t.args = [t.args[1], t.args[0]]
-                emit("swap arguments", node, f)
-        if isinstance(node, ast.IfExp):
-            def f(t):
-                t.body, t.orelse = t.orelse, t.body
-            emit("swap IfExp arms", node, f)
-        if isinstance(node, (ast.If, ast.While)) and isinstance(node.test, ast.UnaryOp) and isinstance(node.test.op, ast.Not):
-            def f(t):
-                t.test = t.test.operand
-            emit("drop not", node, f)
-        elif isinstance(node, ast.If):
-            def f(t):
-                t.test = ast.UnaryOp(op=ast.Not(), operand=t.test)
-            emit("negate if", node, f)
-        if isinstance(node, (ast.AugAssign, ast.Expr, ast.Continue, ast.Break)) and id(getattr(node, "value", None)) not in in_doc:
-            if isinstance(node, ast.Expr) and not isinstance(node.value, ast.Call):
-                continue
-            def f(t):
-                for fld in list(t._fields):
-                    pass
-                t.__class__ = ast.Pass
-                t._fields = ()
-            emit(f"delete {type(node).__name__}", node, f)
-        if isinstance(node, ast.Subscript) and isinstance(node.slice, ast.Constant) and node.slice.value in (0, 1) and isinstance(node.ctx, ast.Load):
-            def f(t):
-                t.slice = ast.Constant(value=1 - t.slice.value)
-            emit(f"index {node.slice.value}->{1 - node.slice.value}", node, f)
-        if isinstance(node, ast.Name) and isinstance(node.ctx, ast.Load):
-            for a, b in (("left", "right"), ("right", "left"), ("first", "second"), ("second", "first")):
-                if a in node.id.split("_"):
-                    new_id = "_".join(b if p == a else p for p in node.id.split("_"))
-                    def f(t, new_id=new_id):
-                        t.id = new_id
-                    emit(f"name {node.id}->{new_id}", node, f)
-                    break
-    # de-duplicate
-    seen = set()
-    uniq = []
-    for desc, line, new in out:
-        if new in seen:
-            continue
-        seen.add(new)
-        uniq.append((desc, line, new))
-    return uniq
+from srcheck.sweep import SKIP_FILES, enumerate_mutants  # noqa: E402
 
 
 def baseline(root: str) -> Dict[str, set]:
